@@ -316,6 +316,16 @@ func run(e *core.Env) {
 			if innerSrc == sender.IP {
 				innerSrc = extraFriend.IP
 			}
+			if len(prevIn) > 0 && tp.Chance(1, 2) {
+				// ... on the 5-tuple of an earlier inbound flow of another router: R may hold an
+				// allowed connection state for exactly this packet - it was never checked for
+				// this sender
+				fl := prevIn[tp.Intn(len(prevIn))]
+				if nodes[fl.si] != sender {
+					innerSrc, proto, sport, dport = nodes[fl.si].IP, fl.proto, fl.sport, fl.dport
+					e.Probe("spoofed_source_on_a_known_flow")
+				}
+			}
 		case 2:
 			innerDst, lie = nodes[1+tp.Intn(3)].IP, "inner-dst"
 		case 3:
